@@ -553,59 +553,66 @@ fn run_case(seed: u64, idx: usize, orphan_leg: bool, background_leg: bool, thoro
             }
         }
 
-        // ---- C04 monitors: every read flavour over the whole universe
-        let with_emb = engine.bulk_query(&universe, true);
-        let without_emb = engine.bulk_query(&universe, false);
+        // ---- C04 monitors: every read flavour over the whole universe. The ORDER of the flavours
+        // rotates with the step and the id: each flavour validates (and scrubs) planted entries
+        // itself, so a fixed order would let the first flavour hide a gap in the others.
         for (i, id) in universe.iter().enumerate() {
             let exp = model.docs.get(id);
             let exp_bits = exp.map(|d| d.bits.clone());
             let exp_meta = exp.map(|d| d.meta.clone());
-            let checks: Vec<(&str, bool, String)> = vec![
-                {
-                    let r = engine.query(*id, None);
-                    ("query", r.as_ref().map(|v| bits(v)) == exp_bits, format!("{:?}", r))
-                },
-                {
-                    let r = engine.query_with_source(*id, None);
-                    ("query_with_source", r.as_ref().map(|v| bits(&v.0)) == exp_bits, format!("{:?}", r))
-                },
-                {
-                    let r = engine.get_document_with_metadata(*id);
-                    (
-                        "get_document_with_metadata",
-                        r.as_ref().map(|v| (bits(&v.0), from_hm(&v.1))) == exp.map(|d| (d.bits.clone(), d.meta.clone())),
-                        format!("{:?}", r),
-                    )
-                },
-                {
-                    let r = engine.get_embedding_cache_aware(*id);
-                    ("get_embedding_cache_aware", r.as_ref().map(|v| bits(v)) == exp_bits, format!("{:?}", r))
-                },
-                {
-                    let r = engine.get_metadata(*id);
-                    ("get_metadata", r.as_ref().map(from_hm) == exp_meta, format!("{:?}", r))
-                },
-                {
-                    let r = engine.exists(*id);
-                    ("exists", r == exp.is_some(), format!("{:?}", r))
-                },
-                {
-                    let r = &with_emb[i];
-                    (
-                        "bulk_query(embeddings)",
-                        r.as_ref().map(|v| (bits(&v.0), from_hm(&v.1))) == exp.map(|d| (d.bits.clone(), d.meta.clone())),
-                        format!("{:?}", r),
-                    )
-                },
-                {
-                    let r = &without_emb[i];
-                    (
-                        "bulk_query(no embeddings)",
-                        r.as_ref().map(|v| (v.0.is_empty(), from_hm(&v.1))) == exp_meta.clone().map(|m| (true, m)),
-                        format!("{:?}", r),
-                    )
-                },
-            ];
+            let rot = (step_no as usize + i + idx) % 8;
+            let mut checks: Vec<(&str, bool, String)> = Vec::with_capacity(8);
+            for k in 0..8usize {
+                let c: (&str, bool, String) = match (k + rot) % 8 {
+                    0 => {
+                        let r = engine.query(*id, None);
+                        ("query", r.as_ref().map(|v| bits(v)) == exp_bits, format!("{:?}", r))
+                    }
+                    1 => {
+                        let r = engine.query_with_source(*id, None);
+                        ("query_with_source", r.as_ref().map(|v| bits(&v.0)) == exp_bits, format!("{:?}", r))
+                    }
+                    2 => {
+                        let r = engine.get_document_with_metadata(*id);
+                        (
+                            "get_document_with_metadata",
+                            r.as_ref().map(|v| (bits(&v.0), from_hm(&v.1))) == exp.map(|d| (d.bits.clone(), d.meta.clone())),
+                            format!("{:?}", r),
+                        )
+                    }
+                    3 => {
+                        let r = engine.get_embedding_cache_aware(*id);
+                        ("get_embedding_cache_aware", r.as_ref().map(|v| bits(v)) == exp_bits, format!("{:?}", r))
+                    }
+                    4 => {
+                        let r = engine.get_metadata(*id);
+                        ("get_metadata", r.as_ref().map(from_hm) == exp_meta, format!("{:?}", r))
+                    }
+                    5 => {
+                        let r = engine.exists(*id);
+                        ("exists", r == exp.is_some(), format!("{:?}", r))
+                    }
+                    6 => {
+                        // bulk read of this id together with its neighbours (order matters for result assembly)
+                        let ids = [*id, (*id + 1) % case.n_ids, (*id + case.n_ids - 1) % case.n_ids];
+                        let r = engine.bulk_query(&ids, true).into_iter().next().flatten();
+                        (
+                            "bulk_query(embeddings)",
+                            r.as_ref().map(|v| (bits(&v.0), from_hm(&v.1))) == exp.map(|d| (d.bits.clone(), d.meta.clone())),
+                            format!("{:?}", r),
+                        )
+                    }
+                    _ => {
+                        let r = engine.bulk_query(&[*id], false).into_iter().next().flatten();
+                        (
+                            "bulk_query(no embeddings)",
+                            r.as_ref().map(|v| (v.0.is_empty(), from_hm(&v.1))) == exp_meta.clone().map(|m| (true, m)),
+                            format!("{:?}", r),
+                        )
+                    }
+                };
+                checks.push(c);
+            }
             reads += checks.len() as u64;
             for (name, ok, got) in checks {
                 if !ok {
